@@ -89,7 +89,7 @@ def menu():
     add('2src', lambda a: drop(a, '--excitation-pulse') + ['--excitation-pulse=1', '--excitation-voltage=1', '--excitation-pulse=2,2', '--excitation-voltage=0.5-2j'])
     for v in ('50', '5-3j', '-4j', '0.001+1000j', '1e-3-1e3j', '75+0j', '12.34567-0.7654321j'):
         add('load=' + v, lambda a, v=v: drop(drop(a, '--load'), '--attach-load') + ['--load=' + v, '--attach-load=1,2'])
-    for v in ('5,1e-6,', '5,,30e-12', ',2e-6,30e-12', '0.5,1e-7,1e-9', '1000,,', '5.123456,1.234567e-6,', '0.1234567,,3.456789e-11'):      # many digits, no L-C cancellation
+    for v in ('5,1e-6,', '5,,30e-12', ',2e-6,30e-12', '0.5,1e-7,1e-9', '1000,,', '5.123456,1.234567e-6,', '0.1234567,,3.456789e-11', '0,6e-05,1e-10', '5,0,1e-10', '5,1e-6,0'):      # many digits, no L-C cancellation
         add('rlc=' + v, lambda a, v=v: a + ['--rlc-load=' + v, '--attach-load=%d,1' % (2 if any(x.startswith('--load') for x in a) else 1)])
     for v in ('2,1e-6,50e-12', '0.1,5e-6,1e-10', '234.5678,1.234567e-6,5.678901e-11'):
         add('trap=' + v, lambda a, v=v: a + ['--trap-load=' + v, '--attach-load=%d,3' % (2 if any(x.startswith('--load') for x in a) else 1)])
